@@ -24,6 +24,9 @@ pub enum Op {
     GSetBits(u64),
     HRec(u64),       // f64 bits
     HRecMany(u64, u32),
+    /// a large batch through the default `record_many` of a histogram that only implements
+    /// `record` (counts around 1024 and beyond): exactly that many samples arrive
+    HOneMany(u64, u32),
     HRecDur(u64),    // nanos, through Duration
     HRecU32(u32),
     HRecI16(i16),
@@ -139,7 +142,13 @@ impl Scenario for C04Handles {
                         }
                     }
                     11 => Op::HRec(*r.pick(&SPECIAL_F)),
-                    12 => Op::HRecMany(((r.below(100) as f64) + 0.5).to_bits(), r.below(5) as u32),
+                    12 => {
+                        if r.chance(80) {
+                            Op::HOneMany(((r.below(100) as f64) + 0.25).to_bits(), *r.pick(&[1023u32, 1024, 1025, 2500]))
+                        } else {
+                            Op::HRecMany(((r.below(100) as f64) + 0.5).to_bits(), r.below(5) as u32)
+                        }
+                    }
                     13 => match r.below(5) {
                         0 => Op::HRecDur(r.below(10_000_000_000)),
                         1 => Op::HRecU32(*r.pick(&[0u32, 1, u32::MAX])),
@@ -206,6 +215,7 @@ impl Scenario for C04Handles {
                                 h_bucket.record(f64::from_bits(*b));
                                 h_one.record(f64::from_bits(*b));
                             }
+                            Op::HOneMany(b, n) => h_one.record_many(f64::from_bits(*b), *n as usize),
                             Op::HRecMany(b, n) => {
                                 h_bucket.record_many(f64::from_bits(*b), *n as usize);
                                 h_one.record_many(f64::from_bits(*b), *n as usize);
@@ -434,6 +444,11 @@ fn check(plan: &Plan, h: &[Ev], f: &Finals) -> Option<Violation> {
                     expect_one.push(*b);
                 }
                 expect_many.push((*b, *n as u64));
+            }
+            Op::HOneMany(b, n) => {
+                for _ in 0..*n {
+                    expect_one.push(*b);
+                }
             }
             Op::HRecDur(n) => expect_one.push(Duration::from_nanos(*n).as_secs_f64().to_bits()),
             Op::HRecU32(v) => expect_one.push((*v as f64).to_bits()),
